@@ -4,6 +4,8 @@ use crate::core::Check;
 
 pub mod delta;
 pub mod history;
+pub mod jsondelta;
+pub mod validity;
 
 pub fn all() -> Vec<&'static Check> {
     vec![
@@ -11,6 +13,8 @@ pub fn all() -> Vec<&'static Check> {
         &delta::C12,
         &history::C13,
         &history::C14,
+        &jsondelta::C18,
+        &validity::C20,
     ]
 }
 
